@@ -156,6 +156,27 @@ def frac_eval(e, vals):
     return out[-1]
 
 
+def var_names(e):
+    """names of the variables of `e`; iterative over BinaryOp/UnaryOp spines (deep chains)"""
+    from optyx.core.expressions import BinaryOp, Constant, UnaryOp, Variable
+
+    names = set()
+    stack = [e]
+    while stack:
+        n = stack.pop()
+        if isinstance(n, BinaryOp):
+            stack.append(n.left); stack.append(n.right)
+        elif isinstance(n, UnaryOp):
+            stack.append(n.operand)
+        elif isinstance(n, Variable):
+            names.add(n.name)
+        elif isinstance(n, Constant):
+            pass
+        else:
+            names |= {v.name for v in n.get_variables()}
+    return sorted(names)
+
+
 def binom_diff(values):
     """Σ_j (-1)^j C(m, j) values[j] for m = len(values) - 1: the m-th forward difference"""
     m = len(values) - 1
@@ -164,7 +185,7 @@ def binom_diff(values):
 
 def degree_oracle(e, d, rng, lines=3):
     """None = the claim "degree ≤ d" survived; "skip:<why>"; or a failure dict"""
-    names = sorted({v.name for v in gen.expr_vars(e)})
+    names = var_names(e)
     if d > 12:
         return "skip:degree>12"
     for _ in range(lines):
@@ -189,7 +210,7 @@ def degree_oracle(e, d, rng, lines=3):
 def numeric_degree_oracle(e, d, rng, why):
     """the Fraction interpreter met a non-polynomial node although a finite degree was reported:
     decide numerically whether the *function* is a polynomial of degree ≤ d along lines"""
-    names = sorted({v.name for v in gen.expr_vars(e)})
+    names = var_names(e)
     if not names:
         return None  # a closed constant expression is a polynomial of degree 0 whatever its nodes
     bad = 0
